@@ -135,6 +135,14 @@ fn directed07(f: &mut Forest) -> Vec<(Id, Id)> {
         "(modpow (q . 3) (q . 3) (q . 7))",
         "(g1_multiply (pubkey_for_exp (q . 1)) (q . $b1100))",
         "(g2_multiply (g2_map (q . 1)) (q . $b1100))",
+        // negative and huge-negative scalars (reduced modulo the group order, sign included)
+        "(g1_multiply (pubkey_for_exp (q . 1)) (q . -1))",
+        "(g1_multiply (pubkey_for_exp (q . 7)) (q . -5))",
+        "(g2_multiply (g2_map (q . 1)) (q . -1))",
+        "(g2_multiply (g2_map (q . 1)) (q . 0xff0000000000000000000000000000000000000000000000000000000000000001))",
+        "(g1_multiply (pubkey_for_exp (q . 1)) (q . 0x80000000000000000000000000000000000000000000000000000000000000000000))",
+        "(pubkey_for_exp (q . -1))",
+        "(pubkey_for_exp (q . 0xff000000000000000000000000000000000000000000000000000000000000000001))",
         "(g1_negate (q . $badg1))",
         "(g2_negate (q . $badg2))",
         "(g1_negate (pubkey_for_exp (q . 5)))",
